@@ -4,6 +4,7 @@ import (
 	"fmt"
 	"os"
 	"path/filepath"
+	"sort"
 	"strings"
 	"testing"
 
@@ -35,6 +36,17 @@ type C09Case struct {
 	Touch bool `json:"touch,omitempty"`
 	// OwnerFirst: namespace b's own ingress is older than a's (parsed first) or newer.
 	OwnerFirst bool `json:"ownerFirst,omitempty"`
+	// Swap: the reader lives in namespace b and the foreign object in a (backends and userlists are built in
+	// name order, so which namespace sorts first decides who creates a shared derived object).
+	Swap bool `json:"swap,omitempty"`
+}
+
+// namespaces of the referencing object (reader) and of the foreign object (owner)
+func (c C09Case) nss() (reader, owner string) {
+	if c.Swap {
+		return "b", "a"
+	}
+	return "a", "b"
 }
 
 var c09Sites = []string{"auth-tls-secret", "secure-crt-secret", "secure-verify-ca-secret", "auth-secret", "auth-url", "tls-secret", "gateway-certref"}
@@ -85,6 +97,7 @@ func genC09(t *rapid.T) C09Case {
 	}
 	c.Touch = chanceT(t, "touch", 30)
 	c.OwnerFirst = rapid.Bool().Draw(t, "ownerfirst")
+	c.Swap = chanceT(t, "swap", 40)
 	if c.Relation == "R1" {
 		c.BUses = false // the foreign object must be otherwise unused to be removable
 	}
@@ -111,6 +124,7 @@ func c09ConfigMap(settings map[string]string) *world.Obj {
 }
 
 func c09World(c C09Case, variant string) []*world.Obj {
+	rd, ow := c.nss()
 	first := c.Settings
 	if len(c.Prior) > 0 {
 		first = c.Prior[0]
@@ -131,9 +145,9 @@ func c09World(c C09Case, variant string) []*world.Obj {
 		"tls-secret": "t1", "gateway-certref": "t1",
 	}[c.Site]
 	foreign := map[string]*world.Obj{
-		"ca1": {Kind: world.KSecret, NS: "b", Name: "ca1", SecretKind: "ca", Cert: 1},
-		"t1":  {Kind: world.KSecret, NS: "b", Name: "t1", SecretKind: "tls", Cert: 4},
-		"pw":  {Kind: world.KSecret, NS: "b", Name: "pw", SecretKind: "auth", Auth: "bob::secret\n"},
+		"ca1": {Kind: world.KSecret, NS: ow, Name: "ca1", SecretKind: "ca", Cert: 1},
+		"t1":  {Kind: world.KSecret, NS: ow, Name: "t1", SecretKind: "tls", Cert: 4},
+		"pw":  {Kind: world.KSecret, NS: ow, Name: "pw", SecretKind: "auth", Auth: "bob::secret\n"},
 	}
 	for n, o := range foreign {
 		if variant == "absent" && n == foreignName {
@@ -147,7 +161,7 @@ func c09World(c C09Case, variant string) []*world.Obj {
 		if c.OwnerFirst {
 			created = 1
 		}
-		bi := &world.Obj{Kind: world.KIngress, NS: "b", Name: "ib", ClassName: sp(world.OurClass), Created: created,
+		bi := &world.Obj{Kind: world.KIngress, NS: ow, Name: "ib", ClassName: sp(world.OurClass), Created: created,
 			Ann:   map[string]string{"auth-type": "basic", "auth-secret": "pw", "auth-tls-secret": "ca1"},
 			Rules: []world.Rule{{Host: "hb.local", Paths: []world.Path{{Path: "/", Type: "Prefix", Svc: "s2", Port: "80"}}}},
 			TLS:   []world.TLS{{Hosts: []string{"hb.local"}, Secret: "t1"}}}
@@ -157,9 +171,9 @@ func c09World(c C09Case, variant string) []*world.Obj {
 	if variant == "dangling" {
 		name = "nothere"
 	}
-	ref := "b/" + name
+	ref := ow + "/" + name
 	if c.Form == "secret" {
-		ref = "secret://b/" + name
+		ref = "secret://" + ow + "/" + name
 	}
 	ann := map[string]string{}
 	switch c.Site {
@@ -177,7 +191,7 @@ func c09World(c C09Case, variant string) []*world.Obj {
 	case "auth-url":
 		ann["auth-url"] = "svc://" + ref + ":8000/auth"
 	}
-	ia := &world.Obj{Kind: world.KIngress, NS: "a", Name: "ia", ClassName: sp(world.OurClass), Created: 2,
+	ia := &world.Obj{Kind: world.KIngress, NS: rd, Name: "ia", ClassName: sp(world.OurClass), Created: 2,
 		Rules: []world.Rule{{Host: "ha.local", Paths: []world.Path{{Path: "/", Type: "Prefix", Svc: "s1", Port: "80"}}}},
 		TLS:   []world.TLS{{Hosts: []string{"ha.local"}, Secret: ""}}}
 	switch c.Site {
@@ -187,15 +201,15 @@ func c09World(c C09Case, variant string) []*world.Obj {
 		// a Gateway of namespace a whose https listener names the certificate of namespace b
 		objs = append(objs,
 			&world.Obj{Kind: world.KGatewayClass, Name: "ours", Controller: world.ControllerName},
-			&world.Obj{Kind: world.KGateway, NS: "a", Name: "gw", GW: &world.GatewaySpec{Class: "ours", Listeners: []world.Listener{
+			&world.Obj{Kind: world.KGateway, NS: rd, Name: "gw", GW: &world.GatewaySpec{Class: "ours", Listeners: []world.Listener{
 				{Name: "https", Hostname: sp("hg.local"), Port: 443, Protocol: "HTTPS", TLSMode: "Terminate", CertRefs: []string{ref}, From: "Same"}}}},
-			&world.Obj{Kind: world.KHTTPRoute, NS: "a", Name: "rt", Created: 2, RT: &world.RouteSpec{
+			&world.Obj{Kind: world.KHTTPRoute, NS: rd, Name: "rt", Created: 2, RT: &world.RouteSpec{
 				Parents: []world.ParentRef{{Name: "gw"}}, Hostnames: []string{"hg.local"},
 				Rules: []world.RouteRule{{Matches: []world.Match{{Type: "PathPrefix", Value: "/"}}, Backends: []world.BackRef{{Name: "s1", Port: ip(80)}}}}}})
 	}
 	if c.OnService && c.Site != "auth-tls-secret" { // auth-tls is host scoped: ingress only
 		for _, o := range objs {
-			if o.Kind == world.KService && o.NS == "a" && o.Name == "s1" {
+			if o.Kind == world.KService && o.NS == rd && o.Name == "s1" {
 				o.Ann = ann
 			}
 		}
@@ -206,7 +220,7 @@ func c09World(c C09Case, variant string) []*world.Obj {
 		// the foreign object of this site is the Service b/s2 (and its endpoints)
 		var keep []*world.Obj
 		for _, o := range objs {
-			if o.NS == "b" && o.Name == "s2" && (o.Kind == world.KService || o.Kind == world.KEndpoints) {
+			if o.NS == ow && o.Name == "s2" && (o.Kind == world.KService || o.Kind == world.KEndpoints) {
 				continue
 			}
 			keep = append(keep, o)
@@ -241,9 +255,11 @@ func c09Run(c C09Case, variant string) (*simResult, error) {
 			steps = append(steps, more...)
 		}
 	}
+	rd, ow := c.nss()
+	_ = ow
 	if c.Touch {
 		for _, o := range s.World.List() {
-			if o.NS == "a" && ((o.Kind == world.KIngress && o.Name == "ia") || (o.Kind == world.KService && o.Name == "s1" && c.OnService)) {
+			if o.NS == rd && ((o.Kind == world.KIngress && o.Name == "ia") || (o.Kind == world.KService && o.Name == "s1" && c.OnService)) {
 				n := o.Clone()
 				if n.Ann == nil {
 					n.Ann = map[string]string{}
@@ -266,7 +282,24 @@ func c09Run(c C09Case, variant string) (*simResult, error) {
 		snis = append(snis, "hg.local")
 	}
 	nf, _ := simNF(s, reqs, snis)
-	r := &simResult{nf: nf}
+	r := &simResult{nf: nf, files: map[string]string{}}
+	// the literal content of every file HAProxy loads (cfg files, maps, lists), temp dir normalised
+	for rel, content := range s.Files() {
+		if strings.HasSuffix(rel, ".lua") || strings.Contains(rel, "spoe") {
+			continue
+		}
+		// comments and blank lines are not configuration: a shard file holding only the header (its last
+		// backend left while the kind was still allowed) is the same as a file that was never written
+		var keep []string
+		for _, l := range strings.Split(strings.ReplaceAll(content, s.Dir, "$D"), "\n") {
+			if t := strings.TrimSpace(l); t != "" && !strings.HasPrefix(t, "#") {
+				keep = append(keep, l)
+			}
+		}
+		if len(keep) > 0 {
+			r.files[rel] = strings.Join(keep, "\n")
+		}
+	}
 	for _, d := range []string{"/var/lib/haproxy/crt", "/var/lib/haproxy/cacerts", "/var/lib/haproxy/crl"} {
 		files, _ := filepath.Glob(s.Dir + d + "/*")
 		for _, f := range files {
@@ -280,6 +313,7 @@ func c09Run(c C09Case, variant string) (*simResult, error) {
 }
 
 type simResult struct {
+	files       map[string]string
 	nf          *hapcfg.NF
 	secretFiles []string
 	logs        []string
@@ -336,6 +370,49 @@ func execC09(c C09Case) *Failure {
 		return failf(sig, "cross-namespace kind %s is denied (settings %v, --allow-cross-namespace=%v), yet the configuration written for namespace a's reference %q (%s) differs between the world where the foreign object exists and the one where it is %s:\n%s",
 			c09KindOf[c.Site], c.Settings, c.AllowCLI, c.Site, c.Form, other, strings.Join(diff, "\n"))
 	}
+	// "identical": not only the behaviour, also nothing of the foreign object may appear in a written file
+	// (eg a whole backend section with the foreign Service's servers that no rule reaches)
+	var names []string
+	for rel := range refRes.files {
+		names = append(names, rel)
+	}
+	for rel := range othRes.files {
+		if _, ok := refRes.files[rel]; !ok {
+			names = append(names, rel)
+		}
+	}
+	sort.Strings(names)
+	for _, rel := range names {
+		a, b := refRes.files[rel], othRes.files[rel]
+		if a == b {
+			continue
+		}
+		var da, db []string
+		inB := map[string]bool{}
+		for _, l := range strings.Split(b, "\n") {
+			inB[l] = true
+		}
+		inA := map[string]bool{}
+		for _, l := range strings.Split(a, "\n") {
+			inA[l] = true
+			if !inB[l] {
+				da = append(da, l)
+			}
+		}
+		for _, l := range strings.Split(b, "\n") {
+			if !inA[l] {
+				db = append(db, l)
+			}
+		}
+		if len(da) > 12 {
+			da = da[:12]
+		}
+		if len(db) > 12 {
+			db = db[:12]
+		}
+		return failf("C09:foreign-object-changes-written-files:"+c.Site, "cross-namespace kind %s is denied (settings %v, --allow-cross-namespace=%v), the behaviour is the same, yet file %s differs between the world where the foreign object exists and the one where it is %s:\n  only with the foreign object:\n    %s\n  only without it:\n    %s",
+			c09KindOf[c.Site], c.Settings, c.AllowCLI, rel, other, strings.Join(da, "\n    "), strings.Join(db, "\n    "))
+	}
 	if c.Relation == "R1" && len(c.Prior) == 0 {
 		// the foreign secret must not even be read: reading writes a PEM file
 		// (only when the kind was never allowed: files written while it was allowed stay on disk)
@@ -344,7 +421,7 @@ func execC09(c C09Case) *Failure {
 			before[f] = true
 		}
 		for _, f := range refRes.secretFiles {
-			if !before[f] && strings.Contains(f, "b_") {
+			if _, ow := c.nss(); !before[f] && strings.Contains(f, ow+"_") {
 				return failf("C09:foreign-secret-read:"+c.Site, "denied cross-namespace reference %q made the controller read the foreign secret: file %s was written", c.Site, f)
 			}
 		}
